@@ -29,6 +29,8 @@ pub enum Sub {
     LoopIter(usize, String),
     /// the statement replaced by the preceding @@.replace must have exactly this (normalised) text
     ReplacedText(String),
+    /// R9 release obligation: receiver substring of the `.lock()` call, proof text with $old / $new
+    LockRelease(String, String),
     Before(String, String),
     After(String, String),
     Replace(String, String),
@@ -181,6 +183,7 @@ pub fn parse(text: &str, cdir: &str) -> Result<Vec<Dir>, String> {
                     "before" => take.subs.push(Sub::Before(arg.to_string(), b)),
                     "after" => take.subs.push(Sub::After(arg.to_string(), b)),
                     "replace" => take.subs.push(Sub::Replace(arg.to_string(), b)),
+                    "lock-release" => take.subs.push(Sub::LockRelease(arg.trim().to_string(), b)),
                     "replaced-text" => take.subs.push(Sub::ReplacedText(b)),
                     "start" => take.subs.push(Sub::Start(b)),
                     "end-of-body" => take.subs.push(Sub::End(b)),
